@@ -185,7 +185,18 @@ Judge(i, si) ==
   IN [selClass |-> selClass, metaClass |-> metaClass, tpl |-> tpl, base |-> b, single |-> single,
       filtered |-> q0.filter.op # "true" /\ ~single,
       multi |-> multi, notInternal |-> out.status # "internal",
+      judged |-> judged, pit |-> q.pit, ins |-> q.ins, xvol |-> q.xvol, xevol |-> q.xevol,
       status |-> out.status = wantStatus,
+      \* double entry as of any instant / window: an unfiltered aggregate is 0 per asset, an unfiltered complete volumes
+      \* listing has, per asset, as much input as output
+      conserv |-> judged =>
+         /\ (b = "agg" => \A x \in ToSet(all) : x.b = 0)
+         /\ (b = "volumes" => \A a \in {x.as : x \in ToSet(all)} :
+                FoldLeft(LAMBDA acc, x : IF x.as = a THEN acc + x.i ELSE acc, 0, all)
+                  = FoldLeft(LAMBDA acc, x : IF x.as = a THEN acc + x.o ELSE acc, 0, all)),
+      \* expanded volumes / effective volumes of the listed accounts that are expected to be listed
+      volOK |-> judged /\ b = "accounts" => \A x \in ToSet(all) : \A e \in exp : e.addr = x.addr => e.vol = x.vol,
+      evolOK |-> judged /\ b = "accounts" => \A x \in ToSet(all) : \A e \in exp : e.addr = x.addr => e.evol = x.evol,
       content |-> judged =>
          /\ {StripMeta(b, x) : x \in ToSet(all)} = {StripMeta(b, e) : e \in exp}
          /\ Len(all) = Cardinality(exp)
@@ -223,7 +234,18 @@ ReadChecks(i, si) ==
       direct == ~j.tpl
       cls(c) == j.selClass = c \/ j.metaClass = c
       allOf == j.status /\ j.content /\ j.meta /\ (j.tpl => j.pages /\ j.sorted /\ j.prev)
-  IN << <<"Inv_C05_Status", direct /\ none /\ ~j.filtered, j.status>>,
+      at == direct /\ none /\ j.judged
+  IN << \* C01 / C03 / C04 as far as they speak about reads at a point in time (the moves are only visible there):
+        \*  C01 conservation per asset at any instant / window, in both date modes
+        <<"Inv_C01_ConservationAt", at /\ ~j.filtered /\ j.base \in {"agg", "volumes"}, j.conserv>>,
+        \*  C03 the volumes as of t by insertion date are the running volumes after the last move inserted at or before t
+        <<"Inv_C03_MovesAt", at /\ j.pit # 0 /\ ((j.base = "accounts" /\ j.xvol) \/ (j.base = "agg" /\ j.ins /\ ~j.filtered)),
+                             IF j.base = "agg" THEN j.content ELSE j.volOK>>,
+        \*  C04 the effective-date counterparts (back-dated inserts are honoured by every read as of t)
+        <<"Inv_C04_EffectiveAt", at /\ j.pit # 0 /\ ((j.base = "accounts" /\ j.xevol)
+                                                     \/ (j.base \in {"agg", "volumes"} /\ ~j.ins /\ ~j.filtered)),
+                                 IF j.base = "accounts" THEN j.evolOK ELSE j.content>>,
+        <<"Inv_C05_Status", direct /\ none /\ ~j.filtered, j.status>>,
         <<"Inv_C05_VolumesAt", direct /\ none /\ ~j.filtered /\ j.base = "volumes", j.content>>,
         <<"Inv_C05_AggAt", direct /\ none /\ ~j.filtered /\ j.base = "agg", j.content>>,
         <<"Inv_C05_AccountsAt", direct /\ none /\ ~j.filtered /\ j.base = "accounts", j.content>>,
@@ -268,6 +290,9 @@ InvOK(name) == l >= 1 /\ IsRead(l) => Verdict(l, s, name)
 StepOK(name) == [][IsRead(l') => Verdict(l', s', name)]_vars
 
 Inv_C17_JournalIsMeta == l >= 1 /\ Trace[l].kind = "state" => I_C17_JournalIsMeta(l)
+Inv_C01_ConservationAt == InvOK("Inv_C01_ConservationAt")
+Inv_C03_MovesAt == InvOK("Inv_C03_MovesAt")
+Inv_C04_EffectiveAt == InvOK("Inv_C04_EffectiveAt")
 Inv_C05_Status == InvOK("Inv_C05_Status")
 Inv_C05_VolumesAt == InvOK("Inv_C05_VolumesAt")
 Inv_C05_AggAt == InvOK("Inv_C05_AggAt")
